@@ -63,6 +63,7 @@ def parseMsg (kind : String) (a : List String) : Option Msg :=
   | "fund" => do pure (.fund (← n 0) (← n 1) (← z 2))
   | "seize" => do pure (.seize (← n 0))
   | "settle" => do pure (.settle (← n 0))
+  | "settle1" => do pure (.settle1 (← n 0))
   | _ => none
 
 def parseProduct (f : List String) : Option Product :=
@@ -194,13 +195,23 @@ def msgMonitors (cfgL : List Product) (prev real : State) (m : Msg) (e : Env) : 
     let expU := out - fee - (if p.denomOut = p.denomIn then taken else 0)
     (if du = expU then [] else [s!"mint_delivers\tuser got {du}, recorded principal less fee is {expU}"]) ++
     (if dc = fee then [] else [s!"mint_delivers\tcollector got {dc}, fee is {fee}"])
+  -- the exact (unrounded) inequality of `C03.ratioOk_exact` / `ratioOk_exact_scales`, on the REAL amounts
+  let exact (p : Product) (a b : Int) (what : String) : List String :=
+    match e.priceIn, debtPrice p e with
+    | some pin, some pout =>
+      (if 0 < p.decIn ∧ 0 < p.decOut ∧ 1 ≤ 2 * p.minCr ∧ ¬ ExactRatio p pin pout a b then
+         [s!"ratio_exact\t{what}: exact inequality with rounding slack fails for in={a} debt={b} pin={pin} pout={pout}"] else []) ++
+      (if 0 < p.decIn ∧ 0 < p.decOut ∧ Dec.P % p.decIn = 0 ∧ Dec.P % p.decOut = 0 ∧ ¬ ExactRatioScales p pin pout a b then
+         [s!"ratio_exact\t{what}: exact ratio below minCr - 1/2 ulp for in={a} debt={b} pin={pin} pout={pout}"] else [])
+    | _, _ => []
   let ratio (p : Product) (vid : Nat) : List String :=
     if e.esm then [] else
     match real.vaults.find? (·.id = vid) with
     | none => []
     | some v =>
       match calcCR p e v.amountIn (v.amountOut + v.interest + v.closingFee) with
-      | some r => if r ≥ p.minCr then [] else [s!"ratio_ok\tvault {vid}: ratio {r} < minCr {p.minCr}"]
+      | some r => (if r ≥ p.minCr then [] else [s!"ratio_ok\tvault {vid}: ratio {r} < minCr {p.minCr}"]) ++
+          exact p v.amountIn (v.amountOut + v.interest + v.closingFee) s!"vault {vid}"
       | none => [s!"price_fail_closed\tvault {vid}: accepted although the ratio cannot be computed (price inactive)"]
   match m with
   | .create f _ pr i o =>
@@ -209,7 +220,7 @@ def msgMonitors (cfgL : List Product) (prev real : State) (m : Msg) (e : Env) : 
     | some p =>
       delivers p f o i ++
       (match calcCR p e i o with
-       | some r => if r ≥ p.minCr then [] else [s!"ratio_ok\tcreate: ratio {r} < minCr {p.minCr}"]
+       | some r => (if r ≥ p.minCr then [] else [s!"ratio_ok\tcreate: ratio {r} < minCr {p.minCr}"]) ++ exact p i o "create"
        | none => ["price_fail_closed\tcreate accepted although the ratio cannot be computed (price inactive)"])
   | .draw f _ pr v x => match cfg pr with
     | none => []
@@ -264,9 +275,13 @@ def handle (st : St) (seq : String) (f : List String) : St × List String :=
         else (st', [])
     | _, _ => (st, [s!"BAD\t{seq}\tcannot parse msg/env"])
   | kind :: rest =>
-    if kind ≠ "vault.state" ∧ kind ≠ "vault.state.settle" ∧ kind ≠ "vault.state.bid" then (st, [s!"BAD\t{seq}\tunknown vault line"]) else
-    -- `.settle`: the state after an auction closed; `.bid`: after a partial auction fill (only bidder / auction-module coins move)
-    let isSettle := kind = "vault.state.settle" || kind = "vault.state.bid"
+    if kind ≠ "vault.state" ∧ kind ≠ "vault.state.settle" ∧ kind ≠ "vault.state.bid" ∧ kind ≠ "vault.state.settle1" then
+      (st, [s!"BAD\t{seq}\tunknown vault line"]) else
+    -- `.settle`: the state after a second-generation auction closed; `.bid`: after a partial auction fill (only bidder /
+    -- auction-module coins move); `.settle1`: after a FIRST-generation auction closed (burns the principal exactly, so the
+    -- supply monitor stays strict there)
+    let isSettle := kind = "vault.state.settle" || kind = "vault.state.bid" || kind = "vault.state.settle1"
+    let lenientSupply := kind = "vault.state.settle" || kind = "vault.state.bid"
     match parseProj rest with
     | none => (st, [s!"BAD\t{seq}\tcannot parse state"])
     | some p =>
@@ -277,7 +292,7 @@ def handle (st : St) (seq : String) (f : List String) : St × List String :=
       let perMsg := match st.prev, st.lastOk with
         | some pv, some (m, e) => msgMonitors st.cfgL pv r m e
         | _, _ => []
-      let mons := (monitors st.cfgL st.prevGaps r isSettle ++ limitMonitors st.cfgL r ++ perMsg).map fun m => s!"MON\t{seq}\t{m}\tafter [{st.lastMsg}]"
+      let mons := (monitors st.cfgL st.prevGaps r lenientSupply ++ limitMonitors st.cfgL r ++ perMsg).map fun m => s!"MON\t{seq}\t{m}\tafter [{st.lastMsg}]"
       -- resynchronise on the real state so that later divergences are independent
       let old := m0
       let resync : State := { r with bal := overlay p.bal old.bal }
